@@ -64,6 +64,9 @@ type Session struct {
 	closed atomic.Value
 
 	continueConn backend.PooledConnect
+	// streamFailed: the response just written was a streamed result that ended with an error packet
+	// (writeResponse returns nil for it: the client has its answer)
+	streamFailed bool
 }
 
 // create session between client<->proxy
@@ -404,6 +407,7 @@ func (cc *Session) handleResponseError(err interface{}) error {
 }
 
 func (cc *Session) writeResponse(r Response) error {
+	cc.streamFailed = false
 	defer func() {
 		if pc := cc.continueConn; pc != nil && (pc.MoreRowsExist() || pc.MoreResultsExist()) {
 			// the response was given up (row limit, client gone, conversion error) with packets of the
@@ -427,6 +431,7 @@ func (cc *Session) writeResponse(r Response) error {
 		// 流式处理
 		if cc.continueConn != nil {
 			err := cc.c.writeOKResultStream(r.Status, rs, cc.continueConn, cc.manager.GetNamespace(cc.namespace).GetMaxResultSize(), r.IsBinary)
+			cc.streamFailed = err != nil
 			return cc.handleResponseError(err)
 		}
 		if r.IsBinary {
